@@ -261,6 +261,10 @@ def controller(rfd, sems, sched, ctl_w):
     armed = False
     hold_quiet = (sched or {}).get('hold_ms', 250) / 1000.0
     end = False
+    expect_draws = (sched or {}).get('expect_draws')
+    expect_busy = (sched or {}).get('expect_busy')
+    hold_max = (sched or {}).get('hold_max_ms', 10000) / 1000.0
+    t_hold0 = None
     while not end:
         tmo = hold_quiet if (hold and not hold_done) else quiet
         r, _, _ = select.select([rfd], [], [], tmo)
@@ -284,6 +288,20 @@ def controller(rfd, sems, sched, ctl_w):
             continue
         # quiescent
         if hold and not hold_done:
+            if not armed:
+                continue                      # the instrumented stream has not even been asked for its first output
+            if t_hold0 is None:
+                t_hold0 = time.time()
+            if expect_draws is not None and time.time() - t_hold0 < hold_max:
+                draws = sum(1 for e in events if e[0] == 'D')
+                inside = {}
+                for tg, ii, pp in events:
+                    if tg == 'S':
+                        inside[ii] = pp
+                    elif tg == 'F':
+                        inside.pop(ii, None)
+                if draws < expect_draws or len(inside) < (expect_busy or 0):
+                    continue                  # a loaded machine is slow, not wrong: keep waiting (up to hold_max)
             events.append(('Q', 0, 0))
             hold_done = True
         if sems is None:
